@@ -97,11 +97,56 @@ def r3_changed_flags(rule, root=None):
         else:
             rule.bad("%s|zoom|changed" % ty, "%s::zoom must report `amount != 1.0`" % ty, A.where(fn))
     fn = vfn("View3", "rotate", root)
-    t = txt(fn["body"])
-    if t == "{letnext_yaw=h.yaw(pos.x);letnext_pitch=h.pitch(pos.y);letchanged=((next_yaw!=self.yaw)||(next_pitch!=self.pitch));self.yaw=next_yaw;self.pitch=next_pitch;changed}":
+    why = _rotate_problem(fn)
+    if why is None:
         rule.ok("View3::rotate: yaw from x, pitch from y, changed computed before the assignments", file=GUI, line=fn["ln"])
     else:
-        rule.bad("View3|rotate", "View3::rotate must take yaw from pos.x and pitch from pos.y, compare both with the old values and only then assign them", A.where(fn))
+        rule.bad("View3|rotate", "View3::rotate must take yaw from pos.x and pitch from pos.y, compare both with the old values and only then assign them (%s)" % why, A.where(fn))
+
+
+def _rotate_problem(fn):
+    """None when: Y = h.yaw(pos.x), P = h.pitch(pos.y), changed = (Y != self.yaw) || (P != self.pitch)
+    evaluated before `self.yaw = Y` and `self.pitch = P`, and `changed` is returned (statement order
+    among independent statements is free)"""
+    stmts = fn["body"]["stmts"]
+    lets = {}
+    assigns = {}
+    for idx, s in enumerate(stmts):
+        if s.get("k") == "Let" and A.binding_name(s["pat"]) and s.get("init") is not None:
+            lets[A.binding_name(s["pat"])] = (idx, s["init"])
+        else:
+            e = A.strip(A.stmt_expr(s) or {})
+            if e.get("k") == "Assign":
+                assigns[str(txt(e["left"]))] = (idx, e["right"])
+    def resolve(e):
+        e = A.strip(e)
+        n = A.ident(e)
+        return str(txt(lets[n][1])) if n in lets else str(txt(e))
+    if set(assigns) != {"self.yaw", "self.pitch"}:
+        return "assigns %s" % sorted(assigns)
+    if resolve(assigns["self.yaw"][1]) != "h.yaw(pos.x)":
+        return "yaw is %s" % resolve(assigns["self.yaw"][1])
+    if resolve(assigns["self.pitch"][1]) != "h.pitch(pos.y)":
+        return "pitch is %s" % resolve(assigns["self.pitch"][1])
+    tail = stmts[-1]
+    tn = A.ident(A.strip(A.stmt_expr(tail) or {})) if not tail.get("semi", True) else None
+    if tn not in lets:
+        return "the result is not a local computed before the assignments"
+    cidx, cinit = lets[tn]
+    if cidx > min(assigns["self.yaw"][0], assigns["self.pitch"][0]):
+        return "`%s` is computed after an assignment" % tn
+    c = A.strip(cinit)
+    if c.get("k") != "Binary" or c["op"] != "||":
+        return "changed is `%s`" % txt(cinit)
+    parts = set()
+    for side in (c["left"], c["right"]):
+        b = A.strip(side)
+        if b.get("k") != "Binary" or b["op"] != "!=":
+            return "changed is `%s`" % txt(cinit)
+        parts.add(frozenset((resolve(b["left"]), resolve(b["right"]))))
+    if parts != {frozenset(("h.yaw(pos.x)", "self.yaw")), frozenset(("h.pitch(pos.y)", "self.pitch"))}:
+        return "changed compares %s" % sorted(sorted(p) for p in parts)
+    return None
 
 
 def _norm_dim(s):
@@ -151,10 +196,9 @@ def _zoom_ok(fn):
     if len(some) != 1 or len(none) != 1:
         return False
     v = A.binding_name(some[0]["pat"]["elems"][0])
-    seq = [txt(s) for s in A.stmts_of(some[0]["body"])]
-    want = ["letpos_before=self.transform_point(&%s);" % v, "(self.scale*=amount);", "letpos_after=self.transform_point(&%s);" % v, "(self.center+=(pos_before-pos_after));"]
+    want = "{letpos_before=self.transform_point(&%s);(self.scale*=amount);letpos_after=self.transform_point(&%s);(self.center+=(pos_before-pos_after));}" % (v, v)
     nseq = [txt(s) for s in A.stmts_of(none[0]["body"])]
-    return seq == want and nseq == ["(self.scale*=amount);"]
+    return txt(some[0]["body"]) == want and nseq == ["(self.scale*=amount);"]
 
 
 def r5_handles(rule, root=None):
